@@ -1,6 +1,7 @@
 package props
 
 import (
+	"encoding/json"
 	"fmt"
 	"strings"
 	"testing"
@@ -9,6 +10,7 @@ import (
 	"github.com/orda-io/orda/client/pkg/iface"
 	"github.com/orda-io/orda/client/pkg/model"
 	"github.com/orda-io/orda/client/pkg/orda"
+	"pgregory.net/rapid"
 	"verif/cluster"
 	"verif/fakemongo"
 	"verif/sim"
@@ -38,8 +40,17 @@ func c08Scenarios() []c07Scenario {
 }
 
 type c08Fault struct {
-	K    int    `json:"k"`    // command number (1-based, counted from the first scenario step)
-	Mode string `json:"mode"` // fail-before | apply-then-error | stop-after
+	K    int    `json:"k"`             // command number (1-based, counted from the first scenario step)
+	Mode string `json:"mode"`          // fail-before | apply-then-error | stop-after
+	Len  int    `json:"len,omitempty"` // outage: commands K..K+Len-1 fail (0 = 1; not for stop-after)
+}
+
+func (f *c08Fault) hits(seq int) bool {
+	n := f.Len
+	if n < 1 {
+		n = 1
+	}
+	return seq >= f.K && seq < f.K+n
 }
 
 type c08Result struct {
@@ -51,6 +62,11 @@ type c08Result struct {
 	writeHit  bool
 	// afterOpsInsert: the faulted command directly follows an insert into -_-Operations on the same connection flow
 	afterOpsInsert bool
+	// s15Pattern: some faulted command is an applied-then-failed insert into -_-Operations, or the
+	// not-applied update of -_-Datatypes that directly follows an applied insert of the same request
+	s15Pattern bool
+	patched    bool
+	writeSeqs  []int // command numbers of the writes (fault-free runs)
 }
 
 // c08Run executes a scenario with at most one storage fault, then recovers and checks.
@@ -74,7 +90,7 @@ func c08Run(sc c07Scenario, f *c08Fault, idseed uint64) (res c08Result) {
 				mode = fakemongo.ApplyThenError
 			}
 			w.env.Mongo.SetFaultHook(func(c *fakemongo.Cmd) fakemongo.Fault {
-				if c.Seq == f.K {
+				if f.hits(c.Seq) {
 					return mode
 				}
 				return fakemongo.None
@@ -87,14 +103,27 @@ func c08Run(sc c07Scenario, f *c08Fault, idseed uint64) (res c08Result) {
 		}
 		log := w.env.Mongo.CommandLog()
 		for i, r := range log {
+			if !f.hits(r.Seq) {
+				continue
+			}
+			after := false
+			for j := i - 1; j >= 0 && j >= i-2; j-- {
+				if log[j].Verb == "insert" && strings.HasSuffix(log[j].NS, ".-_-Operations") && !f.hits(log[j].Seq) {
+					after = true
+				}
+			}
+			if r.Verb == "insert" || r.Verb == "update" || r.Verb == "findAndModify" || r.Verb == "delete" {
+				res.writeHit = true
+			}
 			if r.Seq == f.K {
 				res.faultedNS, res.faultedOn = r.NS, r.Verb
-				res.writeHit = r.Verb == "insert" || r.Verb == "update" || r.Verb == "findAndModify" || r.Verb == "delete"
-				for j := i - 1; j >= 0 && j >= i-2; j-- {
-					if log[j].Verb == "insert" && strings.HasSuffix(log[j].NS, ".-_-Operations") {
-						res.afterOpsInsert = true
-					}
-				}
+				res.afterOpsInsert = after
+			}
+			if r.Verb == "insert" && strings.HasSuffix(r.NS, ".-_-Operations") && f.Mode != "fail-before" {
+				res.s15Pattern = true
+			}
+			if r.Verb == "update" && strings.HasSuffix(r.NS, ".-_-Datatypes") && after && f.Mode != "apply-then-error" {
+				res.s15Pattern = true
 			}
 		}
 	}()
@@ -138,6 +167,22 @@ func c08Run(sc c07Scenario, f *c08Fault, idseed uint64) (res c08Result) {
 			d := c.dts[k.Name]
 			if d.entered || d.mode == "create" {
 				sim.Exec(sc.Kind, d.dt, st.Call)
+			}
+		case "patch":
+			// REST patch of the document (served from the stored snapshot + log, pushes through the same path)
+			patchesHappened = true
+			res.patched = true
+			if w.skipConverge == nil {
+				w.skipConverge = map[string]bool{}
+			}
+			w.skipConverge[k.Name] = true
+			_, e, to := w.env.PatchDocument(&model.PatchMessage{Collection: w.col, Key: k.Name, Json: st.Mode}, l1Deadline)
+			if to {
+				res.err = fmt.Errorf("step %d: the REST patch was never answered (hang)", si)
+				return res
+			}
+			if e != nil {
+				res.sawError = true
 			}
 		case "x":
 			c := w.clients[st.C]
@@ -194,6 +239,13 @@ func c08Run(sc c07Scenario, f *c08Fault, idseed uint64) (res c08Result) {
 	}
 	w.env.WaitBackground(3 * time.Second)
 	res.commands = w.env.Mongo.CommandCount()
+	if f == nil {
+		for _, r := range w.env.Mongo.CommandLog() {
+			if r.Verb == "insert" || r.Verb == "update" || r.Verb == "findAndModify" || r.Verb == "delete" {
+				res.writeSeqs = append(res.writeSeqs, r.Seq)
+			}
+		}
+	}
 	// healthy again
 	w.env.Mongo.SetFaultHook(nil)
 	w.env.Mongo.Resume()
@@ -346,6 +398,150 @@ func TestC08Enum(t *testing.T) {
 	col.SetExhaustive(complete)
 }
 
+// c08Call draws one local call from a small static pool per kind (the scenario is data: no live state).
+func c08Call(rt *rapid.T, kind sim.Kind, i int) sim.Call {
+	lbl := func(s string) string { return fmt.Sprintf("%s%d", s, i) }
+	key := fmt.Sprintf("k%d", rapid.IntRange(0, 3).Draw(rt, lbl("key")))
+	val := func() sim.Val {
+		switch rapid.IntRange(0, 3).Draw(rt, lbl("vk")) {
+		case 0:
+			return sim.S(fmt.Sprintf("v%d", i))
+		case 1:
+			return sim.Obj(sim.KV{K: "n", V: sim.I(int64(i))}, sim.KV{K: "l", V: sim.Arr(sim.I(1), sim.S("x"))})
+		case 2:
+			return sim.Arr(sim.I(int64(i)), sim.Obj(sim.KV{K: "d", V: sim.B(true)}))
+		}
+		return sim.I(int64(i))
+	}
+	switch kind {
+	case sim.Counter:
+		return sim.Call{M: "IncreaseBy", Vals: []sim.Val{sim.I(int64(rapid.IntRange(-5, 1000).Draw(rt, lbl("by"))))}}
+	case sim.Map:
+		if rapid.IntRange(0, 3).Draw(rt, lbl("m")) == 0 {
+			return sim.Call{M: "Remove", Key: key}
+		}
+		return sim.Call{M: "Put", Key: key, Vals: []sim.Val{val()}}
+	case sim.List:
+		switch rapid.IntRange(0, 4).Draw(rt, lbl("m")) {
+		case 0:
+			return sim.Call{M: "Delete", Pos: 0}
+		case 1:
+			return sim.Call{M: "Update", Pos: 0, Vals: []sim.Val{val()}}
+		case 2:
+			return sim.Call{M: "InsertMany", Pos: 0, Vals: []sim.Val{val(), sim.I(int64(-i))}}
+		}
+		return sim.Call{M: "Insert", Pos: 0, Vals: []sim.Val{val()}}
+	}
+	if rapid.IntRange(0, 3).Draw(rt, lbl("m")) == 0 {
+		return sim.Call{M: "DeleteInObject", Key: key}
+	}
+	return sim.Call{M: "PutToObject", Key: key, Vals: []sim.Val{val()}}
+}
+
+// TestC08Random: generated scenarios (all four kinds, 2-4 clients, local calls from a pool with
+// nested values, removals and updates, REST patches on documents) with one storage fault or an
+// outage of several consecutive commands at a drawn command, or a server death + restart.
+func TestC08Random(t *testing.T) {
+	col := stats.New("C08", t.Name(),
+		"rapid: generated scenarios (Counter/Map/List/Document, 2-4 clients with create / subscribe / subscribe-or-create entry, 4-24 further steps of local calls [puts of primitives and nested values, removals, updates, batches], syncs and - on documents - REST patches); "+
+			"the scenario is first run fault-free to count its database commands, then re-run with one drawn fault: command k (uniform over the commands of the run, or - half of the cases - over its writes) fails before being applied, is applied and then reported as failed, for an outage of 1-4 consecutive commands, or is the last command before the database/server dies + restart; "+
+			"same oracle as TestC08Enum (answered in time, error handler without state change, acknowledged operations stored, log invariants, retries succeed, nothing left unpushed, all replicas = server rebuild = refmodel(log); for REST-patched keys convergence is left to C19); "+
+			"non-trivial = a faulted command was a write and a client saw an error or the server was restarted; distinct = hash of (scenario, fault)")
+	checkProp(t, "C08", col, func(c *caseCtx) {
+		rt := c.rt
+		kind := kindFromDraw(rt)
+		nc := rapid.IntRange(2, 4).Draw(rt, "clients")
+		sc := c07Scenario{Name: "random", Kind: kind}
+		modes := make([]string, nc)
+		allSub := true
+		for i := 1; i < nc; i++ {
+			modes[i] = rapid.SampledFrom([]string{"subscribe", "subscribe-or-create"}).Draw(rt, fmt.Sprintf("m%d", i))
+			if modes[i] != "subscribe" {
+				allSub = false
+			}
+		}
+		modes[0] = "subscribe-or-create"
+		if allSub && rapid.Bool().Draw(rt, "m0create") {
+			// a plain create may only be used when nobody else can create the key in its place
+			modes[0] = "create"
+		}
+		for i := 0; i < nc; i++ {
+			sc.Steps = append(sc.Steps, c07Step{K: "client", C: i}, c07Step{K: "open", C: i, Mode: modes[i]})
+			if i == 0 && rapid.Bool().Draw(rt, "op-before-create") {
+				sc.Steps = append(sc.Steps, c07Step{K: "op", C: 0, Call: c08Call(rt, kind, 100)})
+			}
+			sc.Steps = append(sc.Steps, c07Step{K: "x", C: i})
+		}
+		n := rapid.IntRange(4, 24).Draw(rt, "steps")
+		for i := 0; i < n; i++ {
+			ci := rapid.IntRange(0, nc-1).Draw(rt, fmt.Sprintf("c%d", i))
+			switch w := rapid.IntRange(0, 9).Draw(rt, fmt.Sprintf("w%d", i)); {
+			case w < 4:
+				sc.Steps = append(sc.Steps, c07Step{K: "x", C: ci})
+			case w == 9 && kind == sim.Document:
+				sc.Steps = append(sc.Steps, c07Step{K: "patch", Mode: fmt.Sprintf(`{"p%d":%d,"k1":"patched"}`, i%3, i)})
+			default:
+				sc.Steps = append(sc.Steps, c07Step{K: "op", C: ci, Call: c08Call(rt, kind, i)})
+			}
+		}
+		idseed := rapid.Uint64Range(1, 1<<30).Draw(rt, "idseed")
+		mode := rapid.SampledFrom([]string{"fail-before", "apply-then-error", "stop-after"}).Draw(rt, "mode")
+		kpm := rapid.IntRange(0, 9999).Draw(rt, "k-per-10000")
+		flen := rapid.IntRange(1, 4).Draw(rt, "outage")
+		onWrite := rapid.Bool().Draw(rt, "aim-at-write")
+		base := c08Run(sc, nil, idseed)
+		c.j.Header = map[string]interface{}{"scenario": sc, "fault": nil, "id_seed": idseed}
+		if base.err != nil {
+			if strings.Contains(base.err.Error(), "HARNESS-ERROR") {
+				c.failf("%v", base.err)
+			}
+			c.failf("without any fault: %v", base.err)
+		}
+		f := &c08Fault{K: 1 + kpm*base.commands/10000, Mode: mode}
+		if onWrite && len(base.writeSeqs) > 0 {
+			// half of the cases aim at a write (most commands of a request are reads)
+			f.K = base.writeSeqs[kpm*len(base.writeSeqs)/10000]
+		}
+		if mode != "stop-after" && flen > 1 {
+			f.Len = flen
+		}
+		c.j.Header = map[string]interface{}{"scenario": sc, "fault": f, "id_seed": idseed}
+		r := c08Run(sc, f, idseed)
+		b, _ := json.Marshal(c.j.Header)
+		if r.err != nil {
+			if strings.Contains(r.err.Error(), "HARNESS-ERROR") {
+				c.failf("%v", r.err)
+			}
+			if id := c08Classify(r, f); id != "" {
+				reportKnown(col, "C08", id, c08KnownText[id])
+				col.Case(true, string(b), []string{"known=" + id, "kind=" + string(kind)}, nil)
+				return
+			}
+			c.failf("fault %s at command %d (+%d) (%s %s): %v", mode, f.K, f.Len, r.faultedOn, r.faultedNS, r.err)
+		}
+		labels := []string{"kind=" + string(kind), "mode=" + mode}
+		if f.Len > 1 {
+			labels = append(labels, "outage")
+		}
+		if r.sawError {
+			labels = append(labels, "client-saw-error")
+		}
+		if r.patched {
+			labels = append(labels, "rest-patch")
+		}
+		if r.faultedOn != "" {
+			ns := strings.TrimPrefix(r.faultedNS[strings.Index(r.faultedNS, ".")+1:], "-_-")
+			if strings.HasPrefix(ns, "col") || strings.HasPrefix(ns, "orda_") {
+				ns = "<user collection>"
+			}
+			labels = append(labels, "hit="+r.faultedOn+" "+ns)
+		} else {
+			labels = append(labels, "fault-not-reached")
+		}
+		col.Case(r.writeHit && (r.sawError || mode == "stop-after"), string(b), labels, func() interface{} { return c.j.Header })
+	})
+}
+
 var c08KnownText = map[string]string{
 	"S15": "the operations of a push are inserted but the datatype document that records the new end of the log is not (the insert is applied and then reported as failed, the following update fails, or the server dies in between): the stored operations lie beyond the recorded end, and every retry collides with them on _id duid:sseq (duplicate key) forever",
 }
@@ -360,9 +556,7 @@ func c08Classify(r c08Result, f *c08Fault) string {
 	msg := r.err.Error()
 	symptom := strings.Contains(msg, "still fails") || strings.Contains(msg, "recorded end of the log") || strings.Contains(msg, "unpushed operations") ||
 		strings.Contains(msg, "is not stored") || strings.Contains(msg, "was never pushed") || strings.Contains(msg, "is stored twice") || strings.Contains(msg, "differs from the state defined by the stored log")
-	opsInsert := r.faultedOn == "insert" && strings.HasSuffix(r.faultedNS, ".-_-Operations") && f.Mode != "fail-before"
-	docUpdate := r.faultedOn == "update" && strings.HasSuffix(r.faultedNS, ".-_-Datatypes") && r.afterOpsInsert && f.Mode != "apply-then-error"
-	if symptom && (opsInsert || docUpdate) {
+	if symptom && r.s15Pattern {
 		return "S15"
 	}
 	return ""
